@@ -14,13 +14,14 @@ ASSUMPTIONS = ["on a non-ok status the destination content is unspecified; statu
                "internal crypto configuration (the documented AEAD+cryptex+CSRC refusal does not arise)"]
 
 
-def scripts(rng, tier):
+def scripts(rng, tier, n=None):
     out = []
-    n = 14 if tier == "quick" else 200
+    n = n or (14 if tier == "quick" else 200)
     for k in range(n):
         ssrc = rng.randrange(2, 1 << 32)
         p = rand_policy(rng, ssrc=ssrc, valid=True)
-        if k % 7 == 3:
+        aead = p.rtp[0] in (GCM128, GCM256)
+        if k % 7 == 3 and not aead:
             # tag length configured but authentication service not requested
             p.rtp = p.rtp[:3] + (20, 10, rng.choice([1, 0]))
         if k % 5 == 4:
@@ -81,6 +82,7 @@ def monitor(script, c):
     pol = sl[0].split()
     rtp_tag, rtp_serv = int(pol[8], 16), int(pol[9], 16)
     both = int(pol[22], 16) == 1 and pol[24] not in ("-", "")
+    aead_cryptex = int(pol[4], 16) in (GCM128, GCM256) and int(pol[22], 16) == 1
     for i, l in enumerate(sl, 1):
         t = l.split()
         if len(t) > 2 and t[0] == "#" and t[1] == "G":
@@ -91,6 +93,8 @@ def monitor(script, c):
             for m, r in enumerate(rows):
                 if r[5] == "0":
                     hits.append({"what": "out-of-place call modified its input buffer", "signature": "input-modified:" + r[1], "detail": " ".join(r[:3])}); return hits
+                if aead_cryptex and r[1] in ("protect", "unprotect") and m > 0 and r[2] == "1d" and base[2] != "1d":
+                    continue     # the documented exception: cryptex with CSRCs under AES-GCM is refused out of place (cryptex_err)
                 if both and r[1] in ("protect", "unprotect") and (r[2] != base[2] or r[3] != base[3] or (r[2] == "0" and r[4] != base[4])):
                     # cryptex + RFC 6904 in one policy: the 6904 walk runs over the not yet copied destination
                     if not any(h["signature"] == "cryptex-with-6904:" + r[1] for h in hits):
@@ -117,4 +121,6 @@ def families(tier, seed):
     rng = random.Random(seed * 1000 + 12)
     # corpus first: the cryptex + RFC 6904 policy of the known finding, independent of the seed
     corpus = [("corpus-cryptex-6904", corpus_cryptex_6904())]
-    return [Family("four-modes", corpus + scripts(rng, tier), monitor=monitor)]
+    rng2 = random.Random(seed * 1000 + 112)
+    return [Family("four-modes", corpus + scripts(rng, tier), monitor=monitor),
+            Family("gcm-four-modes", with_aead(scripts, rng2, tier, n=(8 if tier == "quick" else 120)), monitor=monitor, config="openssl")]
